@@ -314,6 +314,79 @@ fn lib_writer_refused() {
 }
 
 #[test]
+fn lib_writer_unknown_id() {
+    let id = v_u64("id", 5);
+    let size = v_u64("size", 0);
+    let r = catch_unwind(|| -> Option<String> {
+        let mut cfg = crate::config::ArchiveWriterConfig::new();
+        cfg.set_layers(Layers::EMPTY);
+        // (a) nothing was ever opened; (b) file 0 was opened and ended, then an unrelated id is used
+        for ended_first in [false, true] {
+            let mut cfg = crate::config::ArchiveWriterConfig::new();
+            cfg.set_layers(Layers::EMPTY);
+            let mut w = ArchiveWriter::from_config(Vec::new(), cfg).unwrap();
+            if ended_first {
+                let i0 = w.start_file("a").unwrap();
+                w.append_file_content(i0, 2, &b"xy"[..]).unwrap();
+                w.end_file(i0).unwrap();
+            }
+            let probe = if ended_first { id.max(1) } else { id };
+            let before = w.dest.position();
+            let data = vec![7u8; size.min(64) as usize];
+            if w.append_file_content(probe, size.min(64), &data[..]).is_ok() {
+                return Some(format!("append_file_content(id {probe}, size {}) accepted although that id is not an open file", size.min(64)));
+            }
+            if w.end_file(probe).is_ok() {
+                return Some(format!("end_file({probe}) accepted although that id is not an open file"));
+            }
+            if w.dest.position() != before {
+                return Some("refused calls wrote to the archive".to_string());
+            }
+        }
+        let _ = cfg;
+        None
+    });
+    report(r);
+}
+
+#[test]
+fn lib_writer_flush() {
+    let which = v_u64("which", 0);
+    let r = catch_unwind(|| -> Option<String> {
+        struct CountFlush(std::rc::Rc<std::cell::Cell<u32>>, Vec<u8>);
+        impl Write for CountFlush {
+            fn write(&mut self, b: &[u8]) -> std::io::Result<usize> {
+                self.1.extend_from_slice(b);
+                Ok(b.len())
+            }
+            fn flush(&mut self) -> std::io::Result<()> {
+                self.0.set(self.0.get() + 1);
+                Ok(())
+            }
+        }
+        let n = std::rc::Rc::new(std::cell::Cell::new(0u32));
+        let mut cfg = crate::config::ArchiveWriterConfig::new();
+        cfg.set_layers(Layers::EMPTY);
+        let mut w = ArchiveWriter::from_config(CountFlush(n.clone(), Vec::new()), cfg).unwrap();
+        w.add_file("a", 3, &b"abc"[..]).unwrap();
+        if which == 1 {
+            w.start_file("b").unwrap();
+        } else if which == 2 {
+            w.finalize().unwrap();
+        }
+        let before = n.get();
+        if let Err(e) = w.flush() {
+            return Some(format!("flush failed: {e:?}"));
+        }
+        if n.get() == before {
+            return Some(format!("ArchiveWriter::flush() (scenario {which}: 0 = no file in progress, 1 = a file open, 2 = finalized) returned without flushing the destination"));
+        }
+        None
+    });
+    report(r);
+}
+
+#[test]
 fn lib_from_name() {
     let r = catch_unwind(|| -> Option<String> {
         for (name_len, present) in [(3usize, 3usize), (3, 2), (3, 0), (1, 0), (0, 0), (40, 39), (40, 40)] {
